@@ -13,6 +13,7 @@ ops (JSON):
   {"op":"compose","inst":i,"inputs":[site|param],"outputs":[site],"vals":[enc]}   compose + call the result
 """
 import asyncio
+import json
 import os
 import copy
 from collections import Counter
@@ -72,6 +73,7 @@ class Interp:
         self.setup_entries: Dict[Tuple[int, str], int] = {}  # (instance, setup site) -> entries over the history
         self.stats: Counter = Counter()
         self.scratch: List[str] = []  # temp files to delete when the history is over
+        self.bad_index = '["i", ["v", ' in json.dumps(P) and ('], 7]' in json.dumps(P) or '], "zz"]' in json.dumps(P))
 
     # ------------------------------------------------------------------ helpers
     def _run(self, fn: Any, op_index: int) -> Tuple[Any, Optional[BaseException], sched.Exec]:
@@ -130,7 +132,9 @@ class Interp:
             ref_val = prog.ref_run(self.P, ref_args, R)
             if self._missing_raises(R.missing, sel, selected):
                 ref_exc = prog.MissingArg(",".join(R.missing))
-        except (prog.MissingArg, sched.InjectedError) as e:
+        except (prog.MissingArg, sched.InjectedError, KeyError, IndexError) as e:
+            # (KeyError / IndexError: the program indexes a result with a key it does not have - the run fails in the
+            # scheduler, not inside a node function)
             ref_exc = e
             if isinstance(e, sched.InjectedError) and self._missing_raises(R.missing, sel, selected):
                 ref_exc = prog.MissingArg(",".join(R.missing))
@@ -388,9 +392,28 @@ class Interp:
     def _compose(self, op: Dict[str, Any], inst: Inst, i: int) -> List[Finding]:
         from .composeref import compose_expect, run_composed
 
+        if self.bad_index:
+            return []  # (the reference model of compose does not cover programs that index out of range)
         exp = compose_expect(self.P, self.M, op["inputs"], op["outputs"], [dec(v) for v in op["vals"]], inst.pre, single=op.get("single", False))
-        got = run_composed(inst.b, self.P, op["inputs"], op["outputs"], [dec(v) for v in op["vals"]], self.is_async, name=f"C{self.n}", single=op.get("single", False))
-        tag = f" [op {self.n}: compose(inputs={op['inputs']}, outputs={op['outputs']})({op['vals']}) on instance {i}]"
+        vals_ = [dec(v) for v in op["vals"]]
+        omit = False
+        if op.get("omit") and not exp.error and op["inputs"] and op["inputs"][-1] in self.M.sites:
+            from .composeref import _uses
+
+            u_ = _uses(self.P)
+            # the value of the last input (a node of the original DAG) is left out of the call: the composed DAG has no
+            # default for it whatever the original DAG has computed so far, so the call is refused - provided a node
+            # that runs reads it
+            omit = any(op["inputs"][-1] in u_[s_]["sites"] for s_ in exp.needed)
+        if omit:
+            vals_ = vals_[:-1]
+            self.stats["composed-call-omits-node-input"] += 1
+        got = run_composed(inst.b, self.P, op["inputs"], op["outputs"], vals_, self.is_async, name=f"C{self.n}", single=op.get("single", False))
+        tag = f" [op {self.n}: compose(inputs={op['inputs']}, outputs={op['outputs']})({op['vals'][:len(vals_)]}) on instance {i}]"
+        if omit and not exp.error and got.get("compose_exc") is None:
+            if got.get("call_exc") is None:
+                return [("composed-call-should-have-raised", f"the composed DAG was called without a value for its input {op['inputs'][-1]} and returned {got.get('value')!r}" + tag)]
+            return []
         if exp.error:
             if got.get("compose_exc") is None:
                 return [("compose-should-have-raised", f"compose accepted a selection of class {exp.error}" + tag)]
